@@ -479,6 +479,9 @@ class Interp:
             return obj
         if issubclass(cls, enum.Enum):
             return env.enum_construct(self, cls, args[0])
+        if type(cls).__name__ == "_TypedDictMeta" and not args:
+            # typing.TypedDict: calling the class is dict(**kwargs) (PEP 589), no validation at run time
+            return dict(kwargs)
         mod = getattr(cls, "__module__", "") or ""
         if mod == REPO_PREFIX or mod.startswith(REPO_PREFIX + "."):
             obj = SObj(cls)
